@@ -179,5 +179,5 @@ pub fn run(ctx: &mut Ctx) {
 pub fn replay(v: &Value) -> Vec<Failure> {
     drive::default_config();
     let case = Case::from_json(v);
-    check(&case).2.into_iter().map(|(signature, detail)| Failure { signature, case: v.clone(), detail }).collect()
+    check(&case).2.into_iter().map(|(signature, detail)| Failure { signature, case: v.clone(), detail, hash: 0 }).collect()
 }
